@@ -103,6 +103,10 @@ def run(ctx):
             (dict(hosts=["10.0.0.1"], rounds=4, triggers=["drop+close", "zc-same", "ensure"], behaviours=["ok"], prelude=["ok|10.0.0.1|ok"], preemptive_triggers=False), 2),
             # bursts of nudges while the connector sits in its back-off, then close / shutdown at every later point
             (dict(hosts=["10.0.0.1"], rounds=3, triggers=["double-nudge", "close"], prelude=["refuse"], behaviours=["ok"], preemptive_triggers=False), 3),
+            # the attempt succeeds and close() / shutdown() lands k loop iterations later, k = 1..40: every point of the secure-session setup, the
+            # instant the connector finishes, before and after the waiting caller wakes
+            (dict(hosts=["10.0.0.1"], rounds=3, triggers=["accept+close", "ensure"], behaviours=["ok"], preemptive_triggers=False), 2),
+            (dict(hosts=["10.0.0.1"], rounds=3, triggers=["accept+close"], behaviours=["ok"], subscriptions=True, prelude=["refuse", "timer"], preemptive_triggers=False), 1),
             # a damaged pairing record: the secure session cannot be set up on the controller's side, attempt after attempt
             (dict(hosts=["10.0.0.1"], rounds=4, triggers=["zc-same", "ensure", "close", "drop"], behaviours=["ok", "mute"], damage=("AccessoryLTPK", "odd"), preemptive_triggers=False), 2),
             (dict(hosts=["10.0.0.1"], rounds=4, triggers=["zc-same", "close"], behaviours=["ok"], damage=("iOSDeviceLTSK", "nonhex"), preemptive_triggers=False), 1),
